@@ -686,10 +686,13 @@ def vp_assert(ex, st, th, a):
     if type(c) is E:
         c = st.simp(c)
     msg = ex.cstring(st, a[1])
+    if st.flags.get('failed:' + msg):
+        return None          # already reported on this path; one counterexample per assertion and path is enough
     if type(c) is not E:
         if c:
             ex.obl_concrete += 1
             return None
+        st.flags['failed:' + msg] = 1
         ex.obl_failed += 1
         ex.violations.append(Violation('assert', msg, ex.model_for(st), list(st.inputs), ex.where(st)))
         if ex.stop_on_assert:
@@ -700,6 +703,7 @@ def vp_assert(ex, st, th, a):
     ok, m = ex.solver.check(st.pc, (bad,))
     if ok:
         ex.obl_failed += 1
+        st.flags['failed:' + msg] = 1
         ex.violations.append(Violation('assert', msg, m, list(st.inputs), ex.where(st)))
         if ex.stop_on_assert:
             raise PathEnd('exit', 'assertion failed: ' + msg)
